@@ -3,6 +3,7 @@ import FqModel.Recover
 /-! driver for C06
 
   `batch <path> <format> <f|n> <seed> <mod> <lo> <hi>` TAB `cases=<n> <obs>@<kind>*<count> …`
+  `allfmt <path> <mut> <f|n>` / `fields <path> <format> <f|n> <seed> <mod> <max>` TAB the same histogram
   `d <path> <mut> <format> <f|n>`  TAB `<obs>`          one decode.Decode (every panic / resource case, replays)
   `i <path> <mut> <format> <f|n>`  TAB `tree|error|panic:…|resource:…`   the interpreter path
   `core <prim> <arg> <buf bytes> <pos bits> <f|n>` TAB `ok|err:io|err:decoder|panic:…|resource:…`
@@ -127,6 +128,8 @@ def coreVerdict (sp sa sb spos sf obs : String) : String :=
 def stepC06 (op obs : String) : String :=
   match words op with
   | "batch" :: _ => batchVerdict obs
+  | "allfmt" :: _ => batchVerdict obs
+  | "fields" :: _ => batchVerdict obs
   | ["d", _, _, _, _] => decodeVerdict obs
   | ["i", _, _, _, _] =>
     if isPanic obs then knownVerdict obs
